@@ -6,10 +6,11 @@ wt=/tmp/wt/v_$name
 rm -rf $wt; git -C /repo worktree prune; git -C /repo worktree add -q --detach $wt HEAD || exit 9
 cp /repo/pydra/utils/_version.py $wt/pydra/utils/_version.py
 out=/verif/seeded/$name; mkdir -p $out
-cp $src/patch.diff $out/patch.diff; cp $src/demo.py $out/demo.py; [ -f $src/notes.md ] && cp $src/notes.md $out/notes.md
+[ "$src" != "$out" ] && { cp $src/patch.diff $out/patch.diff; cp $src/demo.py $out/demo.py; [ -f $src/notes.md ] && cp $src/notes.md $out/notes.md; }
 cd $wt
 PYTHONPATH=$wt NO_ET=true timeout -s KILL 300 /venv/bin/python $out/demo.py > $out/demo_clean.log 2>&1; rc_clean=$?
-git apply $out/patch.diff || { echo "PATCH DOES NOT APPLY to HEAD"; git -C /repo worktree remove --force $wt; exit 8; }
+rm -rf /root/.cache/pydra/*/run-cache
+{ git apply $out/patch.diff 2>/dev/null || patch -p1 -F3 -s < $out/patch.diff; } || { echo "PATCH DOES NOT APPLY to HEAD"; git -C /repo worktree remove --force $wt; exit 8; }
 PYTHONPATH=$wt NO_ET=true timeout -s KILL 300 /venv/bin/python $out/demo.py > $out/demo_mutant.log 2>&1; rc_mut=$?
 python3 /verif/tools/suite_check.py $wt -n $n > $out/suite.log 2>&1; rc_suite=$?
 tail -1 $out/suite.log
